@@ -21,6 +21,7 @@ import (
 
 	"verif/harness/explore"
 	"verif/harness/vf"
+	"verif/harness/world"
 )
 
 // C12 — wire encodings round-trip, hashes are stable, decoders are total.
@@ -35,7 +36,7 @@ import (
 //   (c) decoder-panic, decode-fixed-point
 
 type caseRef struct {
-	Part    string          `json:"part"` // value | cache | decode | golden | commitment | history
+	Part    string          `json:"part"` // value | cache | decode | golden | commitment | history | node
 	Type    string          `json:"type,omitempty"`
 	Spec    json.RawMessage `json:"spec,omitempty"`
 	Paths   string          `json:"paths,omitempty"`   // fast | full
@@ -109,6 +110,7 @@ func checkValue(typ string, v any, nonUTF8 bool, paths []path, ref caseRef, cost
 	want := canonOf(v)
 	wantH := hashesOf(v)
 	sigApp, wantSig := sigOK(v)
+	sigCApp, wantSigC := sigOKCustom(v)
 	var firstWire []byte
 	var firstOut []field
 	firstName := ""
@@ -146,6 +148,11 @@ func checkValue(typ string, v any, nonUTF8 bool, paths []path, ref caseRef, cost
 		if sigApp {
 			if _, gotSig := sigOK(out); gotSig != wantSig {
 				add("roundtrip-signature", ptag, fmt.Sprintf("%s via %s: signature valid=%v before, valid=%v after the round trip\n x %s", typ, p.name, wantSig, gotSig, renderFields(want)))
+			}
+		}
+		if sigCApp {
+			if _, gotSigC := sigOKCustom(out); gotSigC != wantSigC {
+				add("roundtrip-signature", append(ptag, "provider:custom"), fmt.Sprintf("%s via %s: under the non-default signature payload provider the signature is valid=%v before, valid=%v after the round trip\n x %s", typ, p.name, wantSigC, gotSigC, renderFields(want)))
 			}
 		}
 		if firstName == "" {
@@ -940,7 +947,7 @@ func report(r *vf.Run, f finding) {
 	r.Report(vf.Violation{Clause: f.clause, Tags: f.tags, Msg: f.msg, Cost: f.cost, History: f.ref})
 }
 
-func replay(r *vf.Run, g *goldenFile) {
+func replay(t *testing.T, r *vf.Run, g *goldenFile) {
 	var ref caseRef
 	if _, err := r.LoadReplay(&ref); err != nil {
 		r.EngineError(err.Error())
@@ -996,6 +1003,8 @@ func replay(r *vf.Run, g *goldenFile) {
 		}
 	case "history":
 		replayHistory(r, ref)
+	case "node":
+		replayNodeCase(t, r, ref)
 	default:
 		r.EngineError("unknown replay part " + ref.Part)
 	}
@@ -1012,6 +1021,7 @@ func TestCheck(t *testing.T) {
 		"decoders run on fresh zero values, as every call site in the node does (part d additionally decodes into reused receivers; there the decoded VALUE is judged only for bytes an encoder wrote)",
 		"part (d): 'fresh process state' is a newly started process (re-exec of the test binary) that has run the Go runtime's and the imported packages' initialisation and read the pool file, and nothing else, before its first decode; the harness builds its keys lazily so that no key or address code runs before it. Dumping a decoded value (Hash, signature check, ValidateBasic, re-encode, re-decode) happens after the last decode of the history",
 		"part (d) compares the success/failure of a decode, not error texts",
+		"part (e): one fixed non-default signature payload provider (sha256 of a tag and the header bytes, world.CustomPayloadProvider) stands for 'a provider other than the default'; producer and full node of a world share the configuration; the un-encoded reference enters the sync loop's header channel with the verifier attached, as both ingress paths do (block/retriever.go, block/store.go); for the cache-file path the header reaches the header cache the same way (for a header the node would reject this is 'a cache file written by the real encoder that holds this value', not a state the node reaches by itself); a verdict is 'the block is applied' (a dropped blob and a fatal sync error are both 'not accepted')",
 	}
 	if os.Getenv("VERIF_C12_GOLDEN") == "write" {
 		if err := writeGolden(); err != nil {
@@ -1027,7 +1037,7 @@ func TestCheck(t *testing.T) {
 		return
 	}
 	if r.ReplayPath() != "" {
-		replay(r, g)
+		replay(t, r, g)
 		r.Finish(vf.Coverage{Evaluations: 1, DistinctNontrivial: 1})
 		return
 	}
@@ -1249,6 +1259,12 @@ func TestCheck(t *testing.T) {
 	evals += hst.evals
 	distinct += hst.distinct
 	lap("histories")
+	// ---- (e) verification verdicts of a node, per configuration of its signature payload provider
+	nodePatterns := vf.Pick(r, []string{"a", "e"}, append(world.Patterns("eab", 1), world.Patterns("eab", 2)...))
+	nst, nev, ndist := runNodeVerdicts(t, r, nodePatterns)
+	evals += nev
+	distinct += ndist
+	lap("node-verdicts")
 	fmt.Printf("C12 phases (s): %v\n", phase)
 
 	evals += decEvals + cacheEvals
@@ -1270,7 +1286,8 @@ func TestCheck(t *testing.T) {
 		Rule: "(a) every enumerated value of every wire type is carried through each of its real paths (MarshalBinary/UnmarshalBinary, ToProto+proto.Marshal / proto.Unmarshal+FromProto, the real DefaultStore, Cache.SaveToDisk/LoadFromDisk) and compared field by field, by Hash/DACommitment and by signature validity; " +
 			"(b) fixed values are compared verbatim with /verif/golden/c12.json; (c) every byte string up to the length bound, every prefix and every single-byte substitution of every golden encoding is offered to every decoder; " +
 			"(d) decode histories: over a pool of messages of every codec type that collide pairwise on every sub-key a memo could use (signer address / public key / key type, header hash, height, time, chain id, signature, tx list, metadata, wire length and prefix, present vs absent sub-messages, failing vs succeeding decodes), EVERY ordered history up to the length bound is run in its own freshly started process (fresh receivers: all pool^n histories; one reused receiver: all histories within one receiver type), decodes first, dumps afterwards; every step's dump (canonical fields, Hash/DACommitment, signature validity, ValidateBasic verdict, re-encoded bytes, re-decode fixed point) must equal the dump of the one-message history of that message, and a pool value must equal the value it was encoded from; plus one long in-process walk that decodes every ordered pair consecutively in the state parts (a)-(c) left behind. " +
-			"evaluations = (value, path) round trips attempted + commitment comparisons + golden comparisons + (decoder, input) decodes + histories (one process each) + decodes of the in-process walk; distinct non-trivial = distinct values that completed a round trip on at least one path + distinct (decoder, input) pairs that decoded successfully and went through the re-encode/decode fixed-point test (mutants are de-duplicated by hash, short strings are distinct by construction) + distinct histories whose last decode succeeds",
+			"(e) verification verdicts of a node: a real full node (real SyncLoop, RetrieveLoop, HeaderStoreRetrieveLoop under virtual time) configured with signature payload provider P receives a signed header of a real producer chain, re-signed by the proposer over the default payload / the non-default payload / with a corrupted signature, un-encoded and through each of its encodings that lead back into a node (cache file across SaveCache / NewManager / LoadCache with the header waiting for its data or for its predecessor, DA blob, P2P header store) while the block's data arrives un-encoded or as a SignedData DA blob (valid / corrupted signature); 'the node applies the block' must be the same for the decoded value as for the value that was encoded, for every combination (the signed payload is node configuration, not part of any encoding); part (a) additionally compares signature validity under the non-default provider's payload before and after every path. " +
+			"evaluations = (value, path) round trips attempted + commitment comparisons + golden comparisons + (decoder, input) decodes + histories (one process each) + decodes of the in-process walk + node scenarios; distinct non-trivial = distinct values that completed a round trip on at least one path + distinct (decoder, input) pairs that decoded successfully and went through the re-encode/decode fixed-point test (mutants are de-duplicated by hash, short strings are distinct by construction) + distinct histories whose last decode succeeds + node scenarios in which the block is applied",
 		Bounds: map[string]any{
 			"byte_field_domain": "nil, empty, 1 byte, 32 bytes", "integer_domain": "0, 1, 2^63, 2^64-1", "string_domain": "empty, \"c\", ff fe (not UTF-8)",
 			"tx_count": fmt.Sprintf("0..%d over {nil, empty, 01, 02, 32 bytes}", b.maxTxs), "batch_entries": fmt.Sprintf("0..%d over {nil, empty, 1, 32, 300 bytes}", b.maxBatch),
@@ -1281,11 +1298,14 @@ func TestCheck(t *testing.T) {
 			"golden_vectors": len(g.Vectors),
 			"history_max_length": histLen, "history_pool_messages": hst.Pool,
 			"history_modes": "fresh receivers: all pool^n ordered histories, n = 1..max; reused receiver: all ordered histories of n = 2..max messages of one receiver type",
+			"signed_header_signatures": "nil, empty, 1 byte, 32 bytes, valid over the default payload, valid over the non-default payload (world.CustomPayloadProvider)",
+			"node_verdict_chains": nodePatterns, "node_verdict_scenarios": nst.Cases,
+			"node_verdict_dimensions": "every target block above the first x node provider {default, non-default} x header signed over {default payload, non-default payload, corrupted} x {in order, before its predecessor blocks} x header via {un-encoded (reference), cache file across a clean restart, DA blob, P2P store (in order only)} x data via {un-encoded, SignedData DA blob, SignedData DA blob with corrupted signature} (empty block: no data)",
 		},
 		Extra: map[string]any{
 			"values_per_type": pt, "decoder_inputs": pd, "completed_path_round_trips": completed, "encode_refusals_non_utf8": rejected,
 			"decoder_evaluations": decEvals, "cache_decoder_evaluations": cacheEvals, "value_jobs": len(jobs),
-			"observations": observations(), "phase_seconds": phase, "decode_histories": hst,
+			"observations": observations(), "phase_seconds": phase, "decode_histories": hst, "node_verdicts": nst,
 		},
 	})
 }
